@@ -85,6 +85,77 @@ def mon_c10(ops, impl):
     return out
 
 
+# ---------------------------------------------------------------------------------------------- connection level
+
+def _f(ans, key):
+    for w in ans.split(" "):
+        if w.startswith(key):
+            return w[len(key):]
+    return "-"
+
+
+def mon_conn(ops, impl):
+    """monitor script for the wire-level reference monitors (H2V/Spec/Wire.lean) from a trace of the real connection"""
+    out = []
+    slots = []       # slot index -> stream id
+    budget_open = True
+    alive = False
+    for i, (o, a) in enumerate(zip(ops, impl)):
+        w = o.split(" ")
+        if w[0] == "cn_new":
+            out.append((i, "mon_cn new " + w[1]))
+            for kv in w[2:]:
+                if kv.startswith("cws="):
+                    out.append((i, "mon_cn target " + kv[4:]))
+            if w[1] == "server":
+                out.append((i, "mon_cn rx S:0:0:-"))     # the peer's first SETTINGS is fed by cn_new itself
+            slots = []
+            budget_open = True
+            alive = True
+        if not w[0].startswith("cn_") or not alive:
+            continue
+        r = _f(a, "r=")
+        if w[0] == "cn_peer":
+            rx = _f(a, "rx=")
+            if rx != "-":
+                for f in rx.split(";"):
+                    out.append((i, "mon_cn rx " + f))
+        if w[0] in ("cn_req", "cn_accept") and r.startswith("ok:"):
+            p = r.split(":")
+            slots.append(int(p[2]))
+        if w[0] == "cn_reset" and r == "ok" and int(w[1]) < len(slots):
+            out.append((i, f"mon_cn reset {slots[int(w[1])]} {_f(a, 'cb=') if _f(a, 'cb=') != '-' else 0}"))
+        if w[0] == "cn_target":
+            out.append((i, "mon_cn target " + w[1]))
+        if w[0] == "cn_budget":
+            budget_open = w[1] == "inf"
+        tx = _f(a, "tx=")
+        if tx != "-":
+            for f in tx.split(";"):
+                out.append((i, "mon_cn tx " + f))
+        if w[0] == "cn_io" and budget_open and "unparsed=0" in r:
+            out.append((i, "mon_cn quiescent"))
+        if w[0] == "cn_dropconn":
+            alive = False
+    return out
+
+
+CONN_BASE = {
+    "relations": {},
+    "monitor": mon_conn,
+    "monitor_tagged": True,
+    "impl_only_prefixes": ("cn_",),
+    "history_starts": ("cn_new",),
+}
+
+
+def conn_prop(lean_targets, theorems, profiles, **kw):
+    d = dict(CONN_BASE)
+    d.update({"lean_targets": lean_targets, "theorems": theorems, "profiles": profiles})
+    d.update(kw)
+    return d
+
+
 def nontrivial(prop, op, ans):
     return ans not in ("ok", "bad-op", "")
 
